@@ -723,6 +723,23 @@ def family_B(tier):
                 p["base"] = f"B5v/{'+'.join(k[4:] for k in subset)}/{kind}"
                 progs.append(p)
 
+    # B7: distributions from TFP's NUMPY substrate (legal in liesel), alone and mixed with
+    # jax-substrate distributions, non-scalar log-densities
+    def npd(d):
+        return {**d, "np": True}
+
+    for po in itertools.product((True, False), repeat=2):
+        tag = "".join("TF"[not x] for x in po)
+        items = [strong("mu", MUV, npd(N(C(0.0), C(4.0))), flag="par", per_obs=po[0]),
+                 strong("y", Y3, N(R("mu"), C(1.5)), flag="obs", per_obs=po[1])]
+        add(f"B7/np-prior/{tag}", items, base="B7/np-prior")
+        items = [strong("sv", [[1.5, 0.5, 2.0], [0.75, 2.5, 1.0], [2.0, 2.0, 0.5]], npd(scale_prior("Gamma")), flag="par", per_obs=po[0]),
+                 strong("y", Y3, npd(N(C(0.5), R("sv"))), flag="obs", per_obs=po[1])]
+        add(f"B7/np-all/{tag}", items, base="B7/np-all")
+        items = [strong("mu", MU, N(C(0.0), C(4.0)), flag="par", per_obs=po[0]),
+                 strong("y", Y3, npd(N(R("mu"), C(1.5), pos=True)), flag="obs", per_obs=po[1])]
+        add(f"B7/np-lik/{tag}", items, base="B7/np-lik")
+
     # B6: hyper-parameters given as python constants / lsl.Value / lsl.Var without distribution
     for hyp in ("value", "var"):
         for po in ((True, True), (False, False)):
